@@ -1,6 +1,61 @@
-(** Entry points for C19 (stub: replaced by the property's own entry file). *)
-From Coq Require Import ZArith List.
-From GV Require Import Base.Val.
+(** Entry points for C19 (interrupted signature-file writes); wire format as in Entry/E12.v.
+      op     = (0 key aval) | (1 key dset) | (2 key ity n) | (3 key a b ints)
+      policy = 0 AtClose | 1 Eager *)
+From Coq Require Import ZArith List Bool.
+From GV Require Import Base.Val Model.Store Entry.E12.
+Import ListNotations.
 Open Scope Z_scope.
 
-Definition dispatch (op : Z) (a : val) : val := vbad.
+Definition vop (o : op) : val :=
+  match o with
+  | OSetAttr k v => VL [VI 0; VI k; vaval v]
+  | OCreate k d => VL [VI 1; VI k; vdset d]
+  | OCreateZero k t n => VL [VI 2; VI k; VI (ity_code t); VI n]
+  | OWrite k a b data => VL [VI 3; VI k; VI a; VI b; vZl data]
+  end.
+(** the same with array contents replaced by their lengths (for multi-megabyte payloads) *)
+Definition vop_short (o : op) : val :=
+  match o with
+  | OSetAttr k v => VL [VI 0; VI k; vaval v]
+  | OCreate k (DInt t l) => VL [VI 1; VI k; VI (ity_code t); VI (zlen l)]
+  | OCreate k (DStr l) => VL [VI 1; VI k; VI (-1); VI (zlen l)]
+  | OCreateZero k t n => VL [VI 2; VI k; VI (ity_code t); VI n]
+  | OWrite k a b data => VL [VI 3; VI k; VI a; VI b; VI (zlen data)]
+  end.
+Definition to_policy (v : val) : policy := if to_Z v =? 0 then AtClose else Eager.
+
+Definition dispatch (op : Z) (a : val) : val :=
+  match op with
+  | 1 => match a with VL [p; c] => match to_coll c with Some c => VL (map vop (dump_ops (to_path p) c)) | None => vbad end
+                  | _ => vbad end
+  | 2 => match a with VL [p; c] => match to_coll c with Some c => VL (map vop_short (dump_ops (to_path p) c)) | None => vbad end
+                  | _ => vbad end
+  | 3 => match a with
+         | VL [pol; p; c; VI n; junk] =>
+             match to_coll c with
+             | Some c => vsres vloaded (load_file (crash_disk (to_policy pol) (to_disk junk)
+                                                              (firstn (Z.to_nat n) (dump_ops (to_path p) c))))
+             | None => vbad end
+         | _ => vbad end
+  | 4 => match a with
+         | VL [p; c] =>
+             match to_coll c with
+             | Some c => vsres vloaded (sbind (closed_disk (dump_ops (to_path p) c)) load_file)
+             | None => vbad end
+         | _ => vbad end
+  | 5 => match a with
+         | VL [pol; p; c; VI n; junk] =>
+             match to_coll c with
+             | Some c => vsres vsigs (sbind (load_file (crash_disk (to_policy pol) (to_disk junk)
+                                                                   (firstn (Z.to_nat n) (dump_ops (to_path p) c)))) decode)
+             | None => vbad end
+         | _ => vbad end
+  | 6 => match a with
+         | VL [pol; p; c; VI n; junk] =>
+             match to_coll c with
+             | Some c => vsres vloaded (load_file_cur (crash_disk (to_policy pol) (to_disk junk)
+                                                                  (firstn (Z.to_nat n) (dump_ops (to_path p) c))))
+             | None => vbad end
+         | _ => vbad end
+  | _ => vbad
+  end.
